@@ -778,6 +778,71 @@ fn run_broadcast_queries_and_equal_strides(out: &mut JobOut) {
             both!("CubicSpline", CubicSpline::new());
         }
     }
+    // (3) the block of one knot is contiguous in memory but not in row-major order (trailing axes
+    // permuted / one trailing axis reversed), and the caller's buffer has exactly the same strides
+    for (n, a, b) in [(4usize, 2usize, 3usize), (5, 3, 2), (4, 1, 4)] {
+        let xs: A1<f64> = (0..n).map(|i| [0.0, 0.1, 0.5, 1.7, 2.0][i]).collect();
+        let stored = ndarray::Array3::from_shape_fn((n, b, a), |(i, j, k)| ((i * 31 + j * 7 + k * 3) as f64 * 0.37).sin() * 3.0 + (j * a + k) as f64);
+        for form in ["trailing axes permuted", "last axis reversed", "both trailing axes reversed"] {
+            let mut dview = stored.view();
+            match form {
+                "trailing axes permuted" => dview = dview.permuted_axes([0, 2, 1]),
+                "last axis reversed" => dview.invert_axis(ndarray::Axis(2)),
+                _ => {
+                    dview.invert_axis(ndarray::Axis(1));
+                    dview.invert_axis(ndarray::Axis(2));
+                }
+            }
+            let downed = dview.to_owned();
+            let lane_shape = (dview.shape()[1], dview.shape()[2]);
+            macro_rules! both3 {
+                ($name:expr, $strat:expr) => {{
+                    let ipv = Interp1DBuilder::new(dview.clone()).x(xs.view()).strategy($strat).build().expect("valid");
+                    let ipo = Interp1DBuilder::new(downed.view()).x(xs.view()).strategy($strat).build().expect("valid");
+                    for q in [0.05, 0.5, 1.2, xs[n - 1]] {
+                        let want = ipo.interp(q).expect("in range");
+                        // a buffer laid out like one knot's block of the data
+                        let mut store = A2::from_elem((b, a), POISON);
+                        let r = {
+                            let mut w = store.view_mut();
+                            match form {
+                                "trailing axes permuted" => w = w.reversed_axes(),
+                                "last axis reversed" => w.invert_axis(ndarray::Axis(1)),
+                                _ => {
+                                    w.invert_axis(ndarray::Axis(0));
+                                    w.invert_axis(ndarray::Axis(1));
+                                }
+                            }
+                            assert_eq!(w.dim(), lane_shape);
+                            assert_eq!(w.strides(), &dview.strides()[1..]);
+                            catch(|| ipv.interp_into(q, w))
+                        };
+                        let mut got = store.view();
+                        match form {
+                            "trailing axes permuted" => got = got.reversed_axes(),
+                            "last axis reversed" => got.invert_axis(ndarray::Axis(1)),
+                            _ => {
+                                got.invert_axis(ndarray::Axis(0));
+                                got.invert_axis(ndarray::Axis(1));
+                            }
+                        }
+                        out.evals += 1;
+                        out.nontrivial += 1;
+                        out.transitions += 1;
+                        let ok = matches!(r, Ok(Ok(()))) && got.iter().map(|v| v.to_bits()).eq(want.iter().map(|v| v.to_bits()));
+                        out.outcome(if ok { "equal-strides:same" } else { "equal-strides:differs" });
+                        if !ok {
+                            out.violate(format!("equal-strides:{}:{}:n{n}:{a}x{b}", $name, form.replace(' ', "-")), format!("{}: data of shape {:?} with {form} and an output buffer with the same strides, q = {q}: result {r:?}, buffer {:?}, the same call on owned row-major data gives {:?}", $name, dview.shape(), got.iter().collect::<Vec<_>>(), want.iter().collect::<Vec<_>>()), Json::Null);
+                        }
+                    }
+                }};
+            }
+            both3!("Linear", Linear::new());
+            both3!("Linear+extrapolate", Linear::new().extrapolate(true));
+            both3!("CubicSpline", CubicSpline::new());
+            both3!("CubicSpline/Natural+extrapolate", CubicSpline::new().extrapolate(true).boundary(ndarray_interp::interp1d::cubic_spline::BoundaryCondition::Natural));
+        }
+    }
 }
 
 fn body(ctx: &Ctx) -> (Summary, Meta) {
@@ -851,7 +916,7 @@ fn body(ctx: &Ctx) -> (Summary, Meta) {
         out
     }));
     let meta = Meta {
-        rule: "for every (strategy, data rank 1..4, query rank 0..3 / dynamic, static-or-dynamic instantiation) the four call forms {interp, interp_into, interp_array, interp_array_into} are run once with all arguments as owned C-order arrays (reference) and then with each argument (data, x, y, query xs, query ys, output buffer, boundary array) independently in every layout of the alphabet {F order, every 2nd (3rd) element of a larger poisoned array, reversed along an axis (negative stride), permuted axes storage; buffers also as reversed windows}, and with the full product over a 3-layout core {C, F, reversed+strided} of (data, x, query, buffer). For Linear and Bilinear every job is repeated with a query holding two different out-of-range values: the error (which names the first offending value in logical order) and the partially filled buffer must not depend on the layouts either. Oracle: bit-identical to the reference; correctly shaped buffers accepted; memory outside strided buffers untouched. Non-trivial = at least one argument not in C order. Broadcast queries: xs / ys that are stride-0 broadcast views (meshgrid in both orientations) against owned copies; data lanes and output buffer strided identically (every 2nd / 3rd element) for the single-point *_into call. Broadcast phase: data that is a stride-0 broadcast view along the lane axis (Linear, CubicSpline with whole-data-set and with per-lane boundary conditions, Bilinear) against an owned copy. Aliasing phase: Interp2D whose x and y axes are views into one allocation starting at the same element (column/row of one table; forward/backward slice of one vector; the same view twice), 2..6 points, every query pair over the knots and interior points (diagonal included), batch queries that are the axes themselves or views of one array, and Interp1D whose axis is a column of its data - each compared bit for bit with the same call on owned copies.".into(),
+        rule: "for every (strategy, data rank 1..4, query rank 0..3 / dynamic, static-or-dynamic instantiation) the four call forms {interp, interp_into, interp_array, interp_array_into} are run once with all arguments as owned C-order arrays (reference) and then with each argument (data, x, y, query xs, query ys, output buffer, boundary array) independently in every layout of the alphabet {F order, every 2nd (3rd) element of a larger poisoned array, reversed along an axis (negative stride), permuted axes storage; buffers also as reversed windows}, and with the full product over a 3-layout core {C, F, reversed+strided} of (data, x, query, buffer). For Linear and Bilinear every job is repeated with a query holding two different out-of-range values: the error (which names the first offending value in logical order) and the partially filled buffer must not depend on the layouts either. Oracle: bit-identical to the reference; correctly shaped buffers accepted; memory outside strided buffers untouched. Non-trivial = at least one argument not in C order. Broadcast queries: xs / ys that are stride-0 broadcast views (meshgrid in both orientations) against owned copies; data lanes and output buffer strided identically (every 2nd / 3rd element; one knot's block contiguous but with permuted or reversed trailing axes) for the single-point *_into call, Linear and CubicSpline. Broadcast phase: data that is a stride-0 broadcast view along the lane axis (Linear, CubicSpline with whole-data-set and with per-lane boundary conditions, Bilinear) against an owned copy. Aliasing phase: Interp2D whose x and y axes are views into one allocation starting at the same element (column/row of one table; forward/backward slice of one vector; the same view twice), 2..6 points, every query pair over the knots and interior points (diagonal included), batch queries that are the axes themselves or views of one array, and Interp1D whose axis is a column of its data - each compared bit for bit with the same call on owned copies.".into(),
         bounds: format!("{njobs} instantiation jobs; tier {}", ctx.tier.name()),
         assumptions: vec!["all layouts are realised as owned arrays / mutable views with unusual strides; ownership kinds (view, shared) are covered by C19".into()],
         extra: vec![],
